@@ -126,25 +126,21 @@ pub struct S1Pack {
     pub path: std::path::PathBuf,
     pub nclusters: u32,
     pub ncontents: u32,
-    _dir: tempfile::TempDir,
 }
 
-static PACKS: OnceLock<Mutex<BTreeMap<String, Arc<S1Pack>>>> = OnceLock::new();
-
-pub fn s1_pack(comp: Comp, nclusters: u32) -> Result<Arc<S1Pack>, Failure> {
-    let key = format!("{comp:?}-{nclusters}");
-    let m = PACKS.get_or_init(|| Mutex::new(BTreeMap::new()));
-    if let Some(p) = m.lock().unwrap().get(&key) {
-        return Ok(Arc::clone(p));
+/// built once per worker process and (compression, cluster count), inside the worker's scratch dir
+pub fn s1_pack(ctx: &Ctx, comp: Comp, nclusters: u32) -> Result<S1Pack, Failure> {
+    let path = ctx.path(&format!("c07-{}-{nclusters}.jbkc", comp.name()));
+    let ncontents = nclusters * BLOBS_PER_CLUSTER;
+    if path.exists() {
+        return Ok(S1Pack { path, nclusters, ncontents });
     }
-    let dir = tempfile::Builder::new().prefix("jbkv-C07-pack-").tempdir_in(scratch_root()).unwrap();
-    let path = dir.path().join("c07.jbkc");
-    let upath = jbk::Utf8PathBuf::from_path_buf(path.clone()).unwrap();
+    let tmp = ctx.path("c07-building.jbkc");
+    let upath = jbk::Utf8PathBuf::from_path_buf(tmp.clone()).unwrap();
     let mut creator = match jbk::creator::ContentPackCreator::new(&upath, jbk::PackId::from(1), vendor(), Default::default(), comp.to_jbk()) {
         Ok(c) => c,
         Err(e) => fail!("create-error", "{e}"),
     };
-    let ncontents = nclusters * BLOBS_PER_CLUSTER;
     for i in 0..ncontents {
         if let Err(e) = creator.add_content(Box::new(std::io::Cursor::new(blob_bytes(i))), jbk::creator::CompHint::Yes) {
             fail!("add-error", "{e}");
@@ -154,9 +150,8 @@ pub fn s1_pack(comp: Comp, nclusters: u32) -> Result<Arc<S1Pack>, Failure> {
         Ok((f, _)) => drop(f),
         Err(e) => fail!("finalize-error", "{e}"),
     }
-    let p = Arc::new(S1Pack { path, nclusters, ncontents, _dir: dir });
-    m.lock().unwrap().insert(key, Arc::clone(&p));
-    Ok(p)
+    std::fs::rename(&tmp, &path).unwrap();
+    Ok(S1Pack { path, nclusters, ncontents })
 }
 
 // ---------------------------------------------------------------------------------------
@@ -558,7 +553,7 @@ impl Property for C07 {
         60
     }
 
-    fn run(case: &Case, _ctx: &Ctx) -> CaseResult {
+    fn run(case: &Case, ctx: &Ctx) -> CaseResult {
         let mut info = CaseInfo::new();
         match case {
             Case::S2 { chunks, last_chunk_len, ranges, schedule, via_stream } => {
@@ -576,7 +571,7 @@ impl Property for C07 {
                     info.class("threads>=8");
                 }
                 let nclusters = 48 + (*plan_seed % 9);
-                let sp = s1_pack(*comp, nclusters)?;
+                let sp = s1_pack(ctx, *comp, nclusters)?;
                 let st = hook_state();
                 st.plan_seed.store(*plan_seed as u64, Ordering::Relaxed);
                 st.plan_strength.store(*strength as u64, Ordering::Relaxed);
